@@ -47,7 +47,7 @@ Definition skind (sa : astate) : Z := match sa with SPrep _ => 0 | SReady _ _ _ 
 
 Definition krel (e : ev) : bool :=
   match e with
-  | ESub QMain _ true | ERun _ _ _ | EMeth _ _ _ | EPrep _ _ _ | EDrop _ _ true | EActor _ | EReady _
+  | ESub QMain _ _ | ERun _ _ _ | EMeth _ _ _ | EPrep _ _ _ | EDrop _ _ _ | EActor _ | EReady _
   | ENotify _ _ | ERunBegin _ _ | ERunRet _ | ENew _ | EDropBegin => true
   | _ => false
   end.
@@ -70,7 +70,8 @@ Inductive keff : st -> st -> Prop :=
     keff s (new_actor s1 a nt parent vis)
 | ke_submit_call s s1 ci : keff s s1 -> callk ci -> iwf s1 ci -> ci_sq ci = None -> keff s (submit s1 QMain ci)
 | ke_submit_plain s s1 q ci : keff s s1 -> ci_call ci = false -> iwf s1 ci -> keff s (submit s1 q ci)
-| ke_push_internal s s1 k : keff s s1 -> internalk k -> keff s (push_main s1 (CI 0 0 k [] None)).
+| ke_push_internal s s1 k : keff s s1 -> internalk k -> keff s (push_main s1 (CI 0 0 k [] None))
+| ke_drop_plain s s1 ci : keff s s1 -> ci_call ci = false -> iwf s1 ci -> keff s (emit s1 (EDrop (ci_uid ci) (ci_sq ci) false)).
 
 Lemma keff_trans s1 s2 s3 : keff s1 s2 -> keff s2 s3 -> keff s1 s3.
 Proof.
@@ -83,6 +84,7 @@ Proof.
   - apply ke_submit_call; auto.
   - apply ke_submit_plain; auto.
   - apply ke_push_internal; auto.
+  - apply ke_drop_plain; auto.
 Qed.
 
 Ltac kirr_tac := repeat split; reflexivity.
@@ -487,7 +489,8 @@ Proof.
     + split; [apply ke_refl | constructor].
     + split; [apply ke_set_frames, ke_refl | apply gen_drops].
   - destruct c as [u i k caps q]. unfold ci_call in C. simpl in C. destruct k; try discriminate C. simpl in E. inversion E; subst.
-    split; [apply ke_emit; [apply ke_refl | reflexivity] | apply gen_drops].
+    split; [|apply gen_drops]. apply (ke_drop_plain s s (CI u i (KPlain body) caps q)); [apply ke_refl | reflexivity|].
+    apply cwf_iff in MW. apply MW.
   - eapply drop_val_kout; eauto.
   - eapply drop_own_kout; eauto.
   - inversion E; subst. split; [apply ke_emit; [apply ke_refl | reflexivity] | constructor].
